@@ -824,6 +824,47 @@ func ssaRegistrations(cx *Ctx, path string, impls, descs, resps map[string]bool)
 					if os.Getenv("DEBUG_C20") != "" {
 						fmt.Fprintf(os.Stderr, "RegisterImplementations in %s first=%s (%T)\n", f, first.Type(), first)
 					}
+					// the interface is chosen per row of a package-level table the call's loop
+					// walks (registry.RegisterImplementations(t.iface(), t.msg)): row by row
+					if _, isConst := first.(*ssa.Const); !isConst {
+						perRow := evalCallPerRow(ci)
+						if os.Getenv("DEBUG_C20") != "" {
+							fmt.Fprintf(os.Stderr, "per-row evaluation in %s: table=%v rows=%d\n", f, loopTableOf(ci), len(perRow))
+							for _, vals := range perRow {
+								for _, v := range vals {
+									fmt.Fprintf(os.Stderr, "   %s:%v", v.kind, v.typ)
+								}
+								fmt.Fprintln(os.Stderr)
+							}
+						}
+						if perRow != nil {
+							for _, vals := range perRow {
+								if len(vals) < 2 || vals[0].kind != "iface" && vals[0].kind != "nilptr" {
+									continue
+								}
+								rpt, isPtr := vals[0].typ.(*types.Pointer)
+								if !isPtr {
+									continue
+								}
+								isM, isR := ifaceKind(rpt)
+								for _, e := range vals[1:] {
+									if e.kind != "iface" {
+										continue
+									}
+									tn := namedOf(e.typ)
+									if tn == nil {
+										continue
+									}
+									if isM {
+										impls[tn.Obj().Name()] = true
+									} else if isR {
+										resps[tn.Obj().Name()] = true
+									}
+								}
+							}
+							continue
+						}
+					}
 					pt, isPtr := first.Type().(*types.Pointer)
 					if !isPtr {
 						continue
@@ -1053,4 +1094,36 @@ func tableColumnTypes(cx *Ctx, v ssa.Value) []string {
 		}
 	}
 	return out
+}
+
+// ifaceKind: the interface a registration is made under: sdk.Msg (requests) or tx.MsgResponse.
+func ifaceKind(pt *types.Pointer) (isMsg, isResp bool) {
+	for _, t := range []types.Type{pt.Elem(), types.Unalias(pt.Elem())} {
+		var obj *types.TypeName
+		switch tt := t.(type) {
+		case *types.Alias:
+			obj = tt.Obj()
+		case *types.Named:
+			obj = tt.Obj()
+		}
+		if obj == nil || obj.Pkg() == nil {
+			continue
+		}
+		if obj.Name() == "Msg" && obj.Pkg().Path() == "github.com/cosmos/cosmos-sdk/types" || obj.Name() == "Message" && obj.Pkg().Path() == "github.com/cosmos/gogoproto/proto" {
+			isMsg = true
+		}
+	}
+	if it, ok := pt.Elem().Underlying().(*types.Interface); ok && !isMsg && namedOf(pt.Elem()) == nil && it.NumMethods() == 3 {
+		names := map[string]bool{}
+		for i := 0; i < it.NumMethods(); i++ {
+			names[it.Method(i).Name()] = true
+		}
+		isMsg = names["ProtoMessage"] && names["Reset"] && names["String"]
+	}
+	if !isMsg {
+		if nt := namedOf(pt.Elem()); nt != nil && nt.Obj().Name() == "MsgResponse" && nt.Obj().Pkg() != nil && strings.HasSuffix(nt.Obj().Pkg().Path(), "/types/tx") {
+			isResp = true
+		}
+	}
+	return
 }
